@@ -72,6 +72,9 @@ CHECKS["C06"] = dict(
     text="Exact per-action contract for what apply records, winner/loser rule of divergent edits (greater BLAKE3 at the path, loser at the conflict-copy name, both sides), record-names-only-live-paths invariant of run_bisync; convergence/idempotence as whole-tree equality is exercised by the history twin only.",
     note=_BISYNC_NOTE, technique="Verus contracts against a ghost file-system world", design_ref="DESIGN.md §3 C02/C06/C07/C08")
 _SERVE_NOTE = "Trusted: Verus+Z3 / Kani+CBMC, extractor rules, ghost world with commit lock and process-private staging names, fs2 flock as mutual exclusion, std::path component grammar behind safe_join (assumed, validated), ciborium by contract. Interleavings are not explored by a verifier: the lock-discipline contracts plus the standard linearizability argument; the session twin forces named schedules on the real binary."
+CHECKS["C09"] = dict(text="local->local and pull: Verus contracts on the extracted deliver_local / deliver_pull / tmp_path / create_local_dirs against a ghost world whose primitives allow non-atomic writes only on *.copia-tmp and a rename only of a WHOLE staging file, with an effect log whose prefixes are the kill points (unbounded: every file content, every outcome). push: NOT provable by contracts (the deciding step is a remote shell command) - a BOUNDED fault enumeration on the real binary stands in: every kill point of one 5-file tree per direction under a ptrace supervisor.",
+                     note="Trusted: the ghost one-way world and transfer_file_from_remote's assumed contract (validated by the crash oracle incl. a failing remote end), R4 async erasure, path algebra. Bounded stand-in (push, and the two-run 're-run converges' clause for all directions): one tree, -j 1, all kill points. H13 (push published truncated files when the sender died) was found by it and fixed in /repo bb79f84.",
+                     technique="Verus contracts against a ghost crash world (effect-log prefixes) for local/pull; bounded kill-point enumeration on the real binary for push", design_ref="DESIGN.md §3 C09")
 CHECKS["C03"] = dict(text="cas_decide proved complete by Kani on the unedited wire.rs; atomic-section contracts of handle_put / handle_delete against a ghost world with a commit lock (compare and commit under one lock, acknowledged only if the rename happened); deterministic two-server sessions on the real binary as witnesses.",
                      note=_SERVE_NOTE, technique="Kani harness + Verus contracts against a ghost world with lock/ownership; session twin", design_ref="DESIGN.md §3 C03/C10/C11/C12")
 CHECKS["C10"] = dict(text="Verus contracts: a live hub path only ever receives the rename of a fully written, flushed, hash-verified, process-private staging file; hash mismatch changes no live path; Get takes length, hash and content from one open file. Session twin with forced interleavings on the real binary.",
